@@ -545,7 +545,7 @@ func (d *Decoded) grpcStatus(h http.Header) (present bool, e *RErr) {
 			d.bad("grpc-status %d disagrees with details-bin code %d", n, st.Code)
 		}
 		// HTTP strips optional whitespace around field values, so compare modulo surrounding blanks
-		if strings.TrimSpace(st.Message) != strings.TrimSpace(e.Message) {
+		if _, has := h["Grpc-Message"]; has && strings.TrimSpace(st.Message) != strings.TrimSpace(e.Message) {
 			d.bad("grpc-message %q disagrees with details-bin message %q", e.Message, st.Message)
 		}
 		e.Details = st.Details
@@ -781,4 +781,196 @@ func SortedKeys(h http.Header) []string {
 	}
 	sort.Strings(ks)
 	return ks
+}
+
+// ---------------------------------------------------------------- a conformant peer's encoder
+
+// Choices are the freedoms the three protocols leave to an encoder.
+type Choices struct {
+	PadBin      bool   // padded base64 in -bin values
+	LowerHex    bool   // lower-case hex digits in percent-encoding
+	EscapeMore  bool   // percent-encode more than necessary (space)
+	OmitMessage bool   // leave grpc-message out when grpc-status-details-bin carries it
+	OmitDetails bool   // leave grpc-status-details-bin out when there are no details
+	HeadersOnly bool   // gRPC family, no body: put status and trailing metadata into HTTP headers
+	LowerKeys   bool   // lower-case metadata keys in the gRPC-Web trailer frame / Connect end-of-stream JSON
+	Encoding    string // algorithm named in the encoding header ("" = none)
+	Mask        int    // bit i: message i is sent compressed (only with Encoding)
+	ExtraJSON   bool   // insignificant whitespace in Connect JSON
+}
+
+// AppResponse is a response at the application level.
+type AppResponse struct {
+	Msgs    [][]byte
+	Err     *RErr
+	Header  http.Header
+	Trailer http.Header
+	ErrMeta http.Header
+}
+
+func pct(s string, c Choices) string {
+	var sb strings.Builder
+	for i := 0; i < len(s); i++ {
+		b := s[i]
+		if b >= 0x20 && b <= 0x7E && b != '%' && !(c.EscapeMore && b == ' ') {
+			sb.WriteByte(b)
+			continue
+		}
+		h := strconv.FormatUint(uint64(b)+0x100, 16)[1:]
+		if !c.LowerHex {
+			h = strings.ToUpper(h)
+		}
+		sb.WriteString("%" + h)
+	}
+	return sb.String()
+}
+
+func keyCase(k string, c Choices) string {
+	if c.LowerKeys {
+		return strings.ToLower(k)
+	}
+	return k
+}
+
+func connectErrorJSON(e *RErr, c Choices) string {
+	m := map[string]any{"code": CodeName(e.Code)}
+	if e.Message != "" {
+		m["message"] = e.Message
+	}
+	if len(e.Details) > 0 {
+		var ds []map[string]any
+		for _, d := range e.Details {
+			v, _ := UnwrapBytes(d.Value)
+			ds = append(ds, map[string]any{"@type": d.TypeURL, "value": string(v)})
+		}
+		m["details"] = ds
+	}
+	b, _ := json.Marshal(m)
+	if c.ExtraJSON { // insignificant whitespace
+		return " " + strings.ReplaceAll(string(b), ",", " ,\n ") + " "
+	}
+	return string(b)
+}
+
+func mergeInto(dst http.Header, srcs ...http.Header) {
+	for _, s := range srcs {
+		for k, vs := range s {
+			dst[k] = append(dst[k], vs...)
+		}
+	}
+}
+
+func grpcStatusBlock(e *RErr, c Choices) http.Header {
+	h := http.Header{}
+	if e == nil {
+		h.Set("Grpc-Status", "0")
+		return h
+	}
+	h.Set("Grpc-Status", strconv.Itoa(e.Code))
+	hasBin := !(c.OmitDetails && len(e.Details) == 0)
+	if !(c.OmitMessage && hasBin) {
+		h.Set("Grpc-Message", pct(e.Message, c))
+	}
+	if hasBin {
+		h.Set("Grpc-Status-Details-Bin", B64Encode(MarshalStatus(Status{Code: int32(e.Code), Message: e.Message, Details: e.Details}), c.PadBin))
+	}
+	return h
+}
+
+func (c Choices) frame(i int, payload []byte) []byte {
+	if c.Encoding != "" && c.Mask&(1<<uint(i)) != 0 {
+		return Envelope(1, Compress(c.Encoding, payload))
+	}
+	return Envelope(0, payload)
+}
+
+// EncodeResponse writes r the way a conformant peer may, under the given choices.
+func EncodeResponse(proto string, unary bool, reqContentType string, r AppResponse, c Choices) (status int, header http.Header, body []byte, trailer http.Header) {
+	header, trailer = http.Header{}, http.Header{}
+	mergeInto(header, r.Header)
+	status = 200
+	switch proto {
+	case Connect:
+		if unary {
+			if r.Err != nil {
+				status = ConnectHTTPStatus(r.Err.Code)
+				header.Set("Content-Type", "application/json")
+				mergeInto(header, r.ErrMeta)
+				for k, v := range r.Trailer {
+					header["Trailer-"+k] = v
+				}
+				body = []byte(connectErrorJSON(r.Err, c))
+				if c.Encoding != "" && c.Mask&1 != 0 {
+					// a peer (or a compressing proxy) may compress the error body like any other body
+					body = Compress(c.Encoding, body)
+					header.Set("Content-Encoding", c.Encoding)
+				}
+				return status, header, body, trailer
+			}
+			header.Set("Content-Type", reqContentType)
+			for k, v := range r.Trailer {
+				header["Trailer-"+k] = v
+			}
+			if len(r.Msgs) > 0 {
+				body = r.Msgs[0]
+			}
+			if c.Encoding != "" && c.Mask&1 != 0 {
+				body = Compress(c.Encoding, body)
+				header.Set("Content-Encoding", c.Encoding)
+			}
+			return status, header, body, trailer
+		}
+		header.Set("Content-Type", reqContentType)
+		if c.Encoding != "" {
+			header.Set("Connect-Content-Encoding", c.Encoding)
+		}
+		for i, m := range r.Msgs {
+			body = append(body, c.frame(i, m)...)
+		}
+		meta := http.Header{}
+		mergeInto(meta, r.Trailer, r.ErrMeta)
+		end := map[string]any{}
+		if len(meta) > 0 {
+			mm := map[string][]string{}
+			for k, v := range meta {
+				mm[keyCase(k, c)] = v
+			}
+			end["metadata"] = mm
+		}
+		if r.Err != nil {
+			end["error"] = json.RawMessage(connectErrorJSON(r.Err, c))
+		}
+		eb, _ := json.Marshal(end)
+		if c.ExtraJSON {
+			eb = append([]byte(" "), eb...)
+		}
+		body = append(body, Envelope(2, eb)...)
+		return status, header, body, trailer
+	case GRPC, GRPCWeb:
+		header.Set("Content-Type", reqContentType)
+		if c.Encoding != "" {
+			header.Set("Grpc-Encoding", c.Encoding)
+		}
+		for i, m := range r.Msgs {
+			body = append(body, c.frame(i, m)...)
+		}
+		end := grpcStatusBlock(r.Err, c)
+		mergeInto(end, r.Trailer, r.ErrMeta)
+		if len(r.Msgs) == 0 && c.HeadersOnly {
+			mergeInto(header, end)
+			return status, header, nil, trailer
+		}
+		if proto == GRPC {
+			return status, header, body, end
+		}
+		var sb strings.Builder
+		for _, k := range SortedKeys(end) {
+			for _, v := range end[k] {
+				sb.WriteString(keyCase(k, c) + ": " + v + "\r\n")
+			}
+		}
+		body = append(body, Envelope(0x80, []byte(sb.String()))...)
+		return status, header, body, trailer
+	}
+	return 500, header, nil, trailer
 }
